@@ -65,6 +65,12 @@ func area2(p clip.Path64) int64 {
 }
 
 func c04Check(o *Oracle, c treeCase) (ok bool, kind, detail, resp string) {
+	ok, kind, detail, resp, _ = c04CheckN(o, c)
+	return
+}
+
+// c04CheckN also returns the polygons of the nodes involved in the failure
+func c04CheckN(o *Oracle, c treeCase) (ok bool, kind, detail, resp string, culprits []clip.Path64) {
 	var flat clip.Paths64
 	var nodes []tnode
 	fault := safeCall(func() {
@@ -80,7 +86,7 @@ func c04Check(o *Oracle, c treeCase) (ok bool, kind, detail, resp string) {
 		}
 	})
 	if fault != "" {
-		return true, "", "", ""
+		return true, "", "", "", nil
 	}
 	// same polygons, each exactly once (up to the start vertex)
 	var a, b []string
@@ -93,7 +99,7 @@ func c04Check(o *Oracle, c treeCase) (ok bool, kind, detail, resp string) {
 	sort.Strings(a)
 	sort.Strings(b)
 	if fmt.Sprint(a) != fmt.Sprint(b) {
-		return false, "multiset", fmt.Sprintf("flat result %v vs tree polygons %v", a, b), ""
+		return false, "multiset", fmt.Sprintf("flat result %v vs tree polygons %v", a, b), "", nil
 	}
 	for i, n := range nodes {
 		// levels alternate, IsHole <=> negative orientation
@@ -102,7 +108,7 @@ func c04Check(o *Oracle, c treeCase) (ok bool, kind, detail, resp string) {
 			wantLevel = nodes[n.parent].level + 1
 		}
 		if n.level != wantLevel || n.isHole != (n.level%2 == 0) {
-			return false, "levels", fmt.Sprintf("node %d level=%d isHole=%v parentLevel=%d", i, n.level, n.isHole, wantLevel-1), ""
+			return false, "levels", fmt.Sprintf("node %d level=%d isHole=%v parentLevel=%d", i, n.level, n.isHole, wantLevel-1), "", nil
 		}
 		if len(n.poly) >= 3 && area2(n.poly) != 0 && n.isHole != (area2(n.poly) < 0) {
 			// slivers that lie entirely inside the 2-unit rounding band of the input edges are
@@ -119,7 +125,7 @@ func c04Check(o *Oracle, c treeCase) (ok bool, kind, detail, resp string) {
 			}
 			line := regionLine("sub", nil, 4, []int{2, 3}, []clip.Paths64{{n.poly}, {}, in, cl})
 			if k, r := askRegion(o, line); !k {
-				return false, "hole-orientation", fmt.Sprintf("node %d IsHole=%v but doubled area=%d: %v (off-band interior point: %s)", i, n.isHole, area2(n.poly), n.poly, r), r
+				return false, "hole-orientation", fmt.Sprintf("node %d IsHole=%v but doubled area=%d: %v (off-band interior point: %s)", i, n.isHole, area2(n.poly), n.poly, r), r, []clip.Path64{n.poly}
 			}
 		}
 	}
@@ -131,7 +137,7 @@ func c04Check(o *Oracle, c treeCase) (ok bool, kind, detail, resp string) {
 			k, r := askRegion(o, line)
 			faces += statOf(r, "faces")
 			if !k {
-				return false, "not-inside-parent", fmt.Sprintf("node %d %v not inside parent %v: %s", i, n.poly, p.poly, r), r
+				return false, "not-inside-parent", fmt.Sprintf("node %d %v not inside parent %v: %s", i, n.poly, p.poly, r), r, []clip.Path64{n.poly}
 			}
 		}
 		// inside no sibling
@@ -152,12 +158,39 @@ func c04Check(o *Oracle, c treeCase) (ok bool, kind, detail, resp string) {
 			line := regionLine("disj", nil, 4, []int{0, 1}, []clip.Paths64{{n.poly}, {nodes[j].poly}})
 			k, r := askRegion(o, line)
 			if !k {
-				return false, "sibling-overlap", fmt.Sprintf("siblings %d %v and %d %v overlap: %s", i, n.poly, j, nodes[j].poly, r), r
+				return false, "sibling-overlap", fmt.Sprintf("siblings %d %v and %d %v overlap: %s", i, n.poly, j, nodes[j].poly, r), r, []clip.Path64{n.poly, nodes[j].poly}
 			}
 		}
 	}
 	resp = fmt.Sprintf("ok faces=%d", faces)
-	return true, "", "", resp
+	return true, "", "", resp, nil
+}
+
+// a nesting failure is attributed to the tree builder's "no owner" site when one of the polygons
+// involved was attached while its owner link was nil — from the start (treeNoOwner) or after the
+// owner chain was exhausted (treeOwnerExhausted) — i.e. it was placed at the top level without any
+// containment test (KNOWN_FINDINGS.txt: site:tree-no-owner)
+func c04Sig(o *Oracle, c treeCase) string {
+	_, _, _, _, culprits := c04CheckN(o, c)
+	if c.D || len(culprits) == 0 {
+		return sigOf(c)
+	}
+	traceMu.Lock()
+	evs := clip.VTraceRun(func() {
+		safeCall(func() { clip.BooleanOpPolyTree64(clip.ClipType(c.CT), c.Subject, c.Clip, clip.FillRule(c.FR)) })
+	})
+	traceMu.Unlock()
+	for _, e := range evs {
+		if e.Kind != "treeNoOwner" && e.Kind != "treeOwnerExhausted" {
+			continue
+		}
+		for _, q := range culprits {
+			if canonRot(q) == canonRot(clip.Path64(e.Pts)) {
+				return "site:tree-no-owner"
+			}
+		}
+	}
+	return sigOf(c)
 }
 
 func init() {
@@ -204,7 +237,7 @@ func init() {
 					c.Clip = sh[1]
 				}
 				_, _, detail, _ = c04Check(o, c)
-				col.Violate(Violation{Property: "C04", Kind: kind, Signature: sigOf(c), Detail: detail, Case: c, Stream: "c04", Index: i, Seed: ctx.Seed})
+				col.Violate(Violation{Property: "C04", Kind: kind, Signature: c04Sig(o, c), Detail: detail, Case: c, Stream: "c04", Index: i, Seed: ctx.Seed})
 			}
 		})
 		return col.Finish()
@@ -215,7 +248,7 @@ func init() {
 			fatal("replay case: %v", err)
 		}
 		if ok, kind, detail, _ := c04Check(o, c); !ok {
-			return &Violation{Property: "C04", Kind: kind, Signature: sigOf(c), Detail: detail, Case: c}
+			return &Violation{Property: "C04", Kind: kind, Signature: c04Sig(o, c), Detail: detail, Case: c}
 		}
 		return nil
 	}
